@@ -1,7 +1,8 @@
 (* C11 - every metadata encoder is inverted by its decoder.  Property theorems only.
    Determinism of encoding is definitional: every enc_X is a Gallina function. *)
 From HV Require Import Base.Prelude Base.Outcome Base.Bytes Model.CodecMsg Proofs.CodecMsg
-  Model.CodecType Proofs.CodecType Model.CodecAttr Proofs.CodecAttr.
+  Model.CodecType Proofs.CodecType Model.CodecAttr Proofs.CodecAttr
+  Model.CodecSuper Proofs.CodecSuper.
 
 Theorem C11_dataspace_roundtrip : forall x, wf_dataspace x = true ->
   dec_dataspace (enc_dataspace x) = Ok (proj_dataspace x).
@@ -58,3 +59,15 @@ Print Assumptions C11_attribute_roundtrip.
 Theorem C11_attribute_len : forall x, wf_attribute x = true -> blen (enc_attribute x) = size_attribute x.
 Proof. exact attribute_blen. Qed.
 Print Assumptions C11_attribute_len.
+
+(* superblock versions 0, 2, 3 (8-byte offsets/lengths: the only sizes the writers accept).
+   proj_superblock: v0 base address comes back 0; v2/v3 SuperExtension 0 comes back UNDEF; the end-of-file
+   address and (v2/v3) the checksum are written but never read. *)
+Theorem C11_superblock_roundtrip : forall x, wf_superblock x = true ->
+  dec_superblock (enc_superblock x) = Ok (proj_superblock x).
+Proof. exact superblock_roundtrip. Qed.
+Print Assumptions C11_superblock_roundtrip.
+
+Theorem C11_superblock_len : forall x, blen (enc_superblock x) = size_superblock x.
+Proof. exact superblock_blen. Qed.
+Print Assumptions C11_superblock_len.
